@@ -411,6 +411,7 @@ func main() {
 	tagsm := flag.Bool("tags", false, "C16: descriptors derived from struct tags in every option order + end-to-end probes")
 	namedW := flag.String("named-write", "", "C18: write the named-types golden directory (run with the harness built against the pinned release)")
 	namedC := flag.String("named-check", "", "C18: open the named-types golden directory with the current tree")
+	linm := flag.Bool("lin", false, "C08: small concurrent histories with invocation/response times, for the linearizability search against the extracted model")
 	pair := flag.Bool("pair", false, "C12: run every history under a pair of configurations and compare (model-free)")
 	flag.Parse()
 
@@ -446,6 +447,13 @@ func main() {
 	}
 	if *namedC != "" {
 		namedCheck(w, *namedC)
+		w.Flush()
+		return
+	}
+	if *linm {
+		for i := 0; i < *n; i++ {
+			runLin(w, *first+i, *seed*1000003+int64(*first+i))
+		}
 		w.Flush()
 		return
 	}
